@@ -119,6 +119,10 @@ def _big(seed, tier, profile):
 def gen_case(kind, profile, seed, tier='quick'):
     if kind == 'sim':
         return {'kind': 'sim', 'sc': S.gen(seed, profile, big=_big(seed, tier, profile))}
+    if kind == 'plandrv':
+        rng = random.Random('plandrv/%s' % seed)
+        return {'kind': 'plandrv', 'sc': S.gen(seed, profile), 'clocks': [rng.choice([0, 0, 3, 17]) for _ in range(4)],
+                'same_clock': rng.random() < 0.7}
     if kind == 'taskdrv':
         rng = random.Random('taskdrv/%s' % seed)
         k = rng.choice([1, 1, 2, 3, 5, 7, 60, 3600])
@@ -176,6 +180,8 @@ def exec_case(case, d):
         return _out(om.run_cluster_case(case, d))
     if k == 'buffer_ops':
         return _out(om.run_buffer_case(case, d))
+    if k == 'plandrv':
+        return exec_plandrv(case, d)
     if k == 'taskdrv':
         return exec_taskdrv(case, d)
     if k == 'repro':
@@ -187,6 +193,51 @@ def exec_case(case, d):
     if k == 'delaymodel':
         return exec_delaymodel(case, d)
     raise ValueError(k)
+
+
+# ......................................................... C14 plan driver
+def exec_plandrv(case, d):
+    """Calls the real planner directly, for every observation of a generated plan, at chosen clocks - in
+    particular several observations at the *same* clock and the same observation twice, which the scheduler
+    (one observation per timestep) never does.  Every plan is checked against the generated DAG."""
+    import contextlib
+    import io
+    from .env import VerifEnv
+    from . import oracles as _or
+    sc = case['sc']
+    env = VerifEnv()
+    res = sut.Result()
+    with contextlib.redirect_stdout(io.StringIO()):
+        sim, fs = sut.build(sc, d, env, 'light')
+        orc = _or.Oracle(sc, sim, env, None, res)
+        obs = list(sim.instrument.observations)
+        clocks = case['clocks']
+        plans = 0
+        try:
+            for rnd in range(2):
+                for i, o in enumerate(obs):
+                    clock = clocks[0] if case['same_clock'] else clocks[i % len(clocks)]
+                    o.ast = 0
+                    o.plan = sim.planner.model.generate_plan(clock + 100 * rnd, sim.cluster, sim.buffer, o, None)
+                    if rnd == 1:
+                        # a second plan of the same observation at a later clock: ids must differ from the first
+                        first = set(orc.ob[o.name]['planned'])
+                        again = {t.id for t in o.plan.tasks}
+                        if first & again:
+                            orc.viol('C14', 'ids_repeat_across_clocks', '%s: %s' % (o.name, sorted(first & again)[:3]))
+                        continue
+                    orc._on_plan(o)
+                    plans += 1
+        except Exception as e:
+            orc.viol('C14', 'planner_raises', '%s: %s' % (type(e).__name__, e))
+    res.status = 'ok'
+    res.T = 0
+    out = _out(res)
+    out['violations'] = [v for v in out['violations'] if v['prop'] == 'C14']
+    out['probes']['direct_plans'] = plans
+    if len(obs) >= 2 and case['same_clock']:
+        out['probes']['same_clock_plans'] = 1
+    return out
 
 
 # ......................................................... C06 task driver
@@ -796,7 +847,7 @@ def _sc_candidates(sc):
 
 def shrink_candidates(case):
     k = case['kind']
-    if k in ('sim', 'repro', 'pause', 'units'):
+    if k in ('sim', 'repro', 'pause', 'units', 'plandrv'):
         if k == 'pause' and case.get('ks') is None:
             pass
         for sc in _sc_candidates(case['sc']):
